@@ -54,7 +54,8 @@ type call struct {
 // lambda + apply with the last list split at every point.
 func calls(c Case) (out []call) {
 	ps := c.Params()
-	body := "(vt:mark 'entered) (list " + strings.Join(ps, " ") + ")"
+	// every parameter is also a body form of its own (a bare symbol in the body is compiled apart from one in a call)
+	body := "(vt:mark 'entered) " + strings.Join(ps, " ") + " (list " + strings.Join(ps, " ") + ")"
 	ll := c.LambdaList()
 	wrap := func(src string) string {
 		if len(c.Outer) == 0 {
